@@ -25,6 +25,9 @@
 #include "llvm/IRReader/IRReader.h"
 #include "llvm/Support/SourceMgr.h"
 #include "llvm/Support/raw_ostream.h"
+#include "llvm/Bitcode/BitcodeWriter.h"
+#include "llvm/Support/FileSystem.h"
+#include "llvm/IR/Dominators.h"
 #include <map>
 #include <set>
 #include <string>
@@ -422,6 +425,12 @@ static void dumpFunction(Ctx &C, const Function &Fn, raw_ostream &O) {
       } else {
         ops(0, I.getNumOperands());
       }
+      if (auto *EV = dyn_cast<ExtractValueInst>(&I)) {
+        O << ",\"evi\":[";
+        bool f5 = true;
+        for (unsigned ix : EV->indices()) { if (!f5) O << ","; f5 = false; O << ix; }
+        O << "]";
+      }
       if (auto *CI = dyn_cast<CmpInst>(&I)) O << ",\"pred\":" << q(CmpInst::getPredicateName(CI->getPredicate()));
       if (auto *L = dyn_cast<LoadInst>(&I)) { if (L->isAtomic()) O << ",\"atomic\":" << q(ordName(L->getOrdering())); if (L->isVolatile()) O << ",\"vol\":true"; }
       if (auto *S = dyn_cast<StoreInst>(&I)) { if (S->isAtomic()) O << ",\"atomic\":" << q(ordName(S->getOrdering())); if (S->isVolatile()) O << ",\"vol\":true"; }
@@ -447,8 +456,66 @@ static void dumpFunction(Ctx &C, const Function &Fn, raw_ostream &O) {
   O << "]}";
 }
 
+// ---- accessor marking ---------------------------------------------------------------------------
+// A "pure accessor" is a small loop-free function without stores, atomics, aborts or calls (other than to
+// other pure accessors): cstl_vector_size, the element/node helpers, a maintainer's `effective_count(h)`.
+// They are marked alwaysinline so that the un-inlined view sees through them: extracting or inlining such
+// a helper is a behaviour-preserving edit and must not change any verdict.
+static bool hasBackEdge(Function &F) {
+  DominatorTree DT(F);
+  for (auto &BB : F) for (auto *S : successors(&BB)) if (DT.dominates(S, &BB)) return true;
+  return false;
+}
+static int markAccessors(Module &M) {
+  std::set<Function *> acc;
+  bool changed = true;
+  while (changed) {
+    changed = false;
+    for (auto &F : M) {
+      if (F.isDeclaration() || F.isVarArg() || acc.count(&F)) continue;
+      if (F.hasFnAttribute(Attribute::NoInline) || F.hasFnAttribute(Attribute::OptimizeNone)) continue;
+      unsigned n = 0; bool ok = true;
+      for (auto &BB : F) {
+        for (auto &I : BB) {
+          if (isa<DbgInfoIntrinsic>(&I)) continue;
+          if (auto *II = dyn_cast<IntrinsicInst>(&I)) {
+            Intrinsic::ID id = II->getIntrinsicID();
+            if (id == Intrinsic::lifetime_start || id == Intrinsic::lifetime_end) continue;
+          }
+          n++;
+          if (isa<StoreInst>(&I) || isa<AtomicRMWInst>(&I) || isa<AtomicCmpXchgInst>(&I) || isa<UnreachableInst>(&I) || isa<AllocaInst>(&I) ||
+              isa<InvokeInst>(&I) || isa<FenceInst>(&I)) { ok = false; break; }
+          if (auto *L = dyn_cast<LoadInst>(&I)) if (L->isAtomic() || L->isVolatile()) { ok = false; break; }
+          if (auto *CB = dyn_cast<CallBase>(&I)) {
+            Function *cf = dyn_cast<Function>(CB->getCalledOperand()->stripPointerCasts());
+            if (!cf || cf == &F || !acc.count(cf)) { ok = false; break; }
+          }
+        }
+        if (!ok) break;
+      }
+      if (!ok || n > 48 || F.size() > 12) continue;
+      if (hasBackEdge(F)) continue;
+      acc.insert(&F); changed = true;
+    }
+  }
+  for (auto *F : acc) F->addFnAttr(Attribute::AlwaysInline);
+  return (int)acc.size();
+}
+
 int main(int argc, char **argv) {
-  if (argc < 2) { errs() << "usage: irdump <module.bc|.ll>\n"; return 2; }
+  if (argc >= 4 && std::string(argv[1]) == "--mark-accessors") {
+    LLVMContext Cx; SMDiagnostic Err;
+    std::unique_ptr<Module> M = parseIRFile(argv[2], Err, Cx);
+    if (!M) { Err.print(argv[0], errs()); return 2; }
+    int n = markAccessors(*M);
+    std::error_code EC;
+    raw_fd_ostream OS(argv[3], EC, sys::fs::OF_None);
+    if (EC) { errs() << EC.message() << "\n"; return 2; }
+    WriteBitcodeToFile(*M, OS);
+    outs() << n << "\n";
+    return 0;
+  }
+  if (argc < 2) { errs() << "usage: irdump <module.bc|.ll> | irdump --mark-accessors in.bc out.bc\n"; return 2; }
   LLVMContext Cx; SMDiagnostic Err;
   std::unique_ptr<Module> M = parseIRFile(argv[1], Err, Cx);
   if (!M) { Err.print(argv[0], errs()); return 2; }
